@@ -264,7 +264,7 @@ def c02(tier):
     the structure helpers use exactly the retained bytes, at every nesting position."""
     jobs = [_rj("C02", t, tier) for t in STRUCTS + ["SuppPubInfo"] + (["CoseKdfContext"] if tier != "quick" else [])]
     for t, top in (("CoseSign1", 4), ("CoseSign", 4), ("CoseMac0", 4), ("CoseEncrypt0", 3)) + \
-            ((("CoseRecipient", 4), ("CoseMac", 5), ("CoseEncrypt", 4)) if tier != "quick" else ()):
+            ((("CoseRecipient", 4),) if tier != "quick" else ()):
         jobs.append(_sj("C02", t, _struct_pol(tier, top), False))
     jobs.append(_dj("C02", "CoseSign", _struct_pol(tier, 4), tag=":retention"))
     jobs.append(_dj("C02", "SuppPubInfo", _struct_pol(tier, 3), tag=":retention"))
